@@ -710,9 +710,9 @@ fn build_blte_seed(multi: bool) -> Result<Vec<u8>, String> {
 }
 fn build_blte_encrypted_seed(arc4: bool) -> Result<Vec<u8>, String> {
     use cascette_formats::blte::{BlteBuilder, CompressionMode, EncryptionSpec};
-    let data: Vec<u8> = (0..200u32).map(|i| (i % 11) as u8 + b'A').collect();
+    let data: Vec<u8> = (0..2500u32).map(|i| (i % 11) as u8 + b'A').collect();
     let spec = if arc4 { EncryptionSpec::arc4(SEED_KEY_NAME, [1, 2, 3, 4]) } else { EncryptionSpec::salsa20(SEED_KEY_NAME, [1, 2, 3, 4]) };
-    let f = BlteBuilder::new().with_compression(CompressionMode::ZLib).with_chunk_size(80).map_err(es)?.with_encryption(spec, SEED_KEY).add_data(&data).map_err(es)?.build().map_err(es)?;
+    let f = BlteBuilder::new().with_compression(CompressionMode::ZLib).with_chunk_size(1024).map_err(es)?.with_encryption(spec, SEED_KEY).add_data(&data).map_err(es)?.build().map_err(es)?;
     <BlteFile as CascFormat>::build(&f).map_err(es)
 }
 fn build_encoding_file(n: u64) -> Result<EncodingFile, String> {
